@@ -328,10 +328,53 @@ def check_history(run, ops, shortcut):
         run.cls("nontrivial-history")
 
 
+def check_broken_solver(run, rnd, mode=None, fbp=None):
+    """The process dies, or answers nonsense, at check-sat: the verdict 'returned is the one the solver gave' - there
+    is none, so solve() must raise; it must neither invent a verdict nor wait forever for a reply."""
+    from pysmt.smtlib.solver import SmtLibSolver
+    if mode is None:
+        mode = rnd.choice(["exit", "crash", "garbage"])
+        fbp = G(cfg=CFG_NOUF, rnd=rnd).term(BOOL, 2)
+    env = Environment()
+    solver = None
+    case = {"ops": [("assert", fbp), ("solve",)], "shortcut": None, "mode": mode}
+    run.case(key=("broken", mode, fbp), nontrivial=True)
+    run.cls("broken-solver:" + mode)
+    try:
+        with env:
+            solver = SmtLibSolver(REFSOLVER + ["--mode", mode, "--card", str(CARD)], env, QF_UFBV, LOGICS=PYSMT_LOGICS)
+            solver.add_assertion(pys.build(env, fbp))
+            try:
+                r = with_timeout(10, lambda: solver.solve())
+            except Timeout:
+                run.fail({"subcheck": "smtlibsolver:blocked", "op": "solve", "mode": mode}, case,
+                         "the solver process answers check-sat with '%s' and solve() does not return" % mode)
+                return
+            except Exception:
+                return
+            run.fail({"subcheck": "smtlibsolver:verdict-without-answer", "mode": mode}, case,
+                     "solve() returned %r although the solver process never answered sat / unsat (%s)" % (r, mode))
+    finally:
+        try:
+            if solver is not None:
+                solver.exit()
+        except Exception:
+            pass
+        for junk in ('"stdout"', "stdout"):
+            try:
+                if os.path.exists(junk) and os.path.getsize(junk) == 0:
+                    os.remove(junk)
+            except Exception:
+                pass
+
+
 def shard(shard, seed, n):
     run = Run(PID)
 
     def body(rnd):
+        if rnd.random() < 0.06:
+            check_broken_solver(run, rnd)
+            return
         ops, shortcut = gen_history(rnd)
         check_history(run, ops, shortcut)
     drive(body, st.randoms(use_true_random=True), n, derive_seed(seed, "c17", shard))
@@ -356,7 +399,10 @@ def main():
 def replay(rec):
     run = Run(PID, known=[])
     c = rec["case"]
-    check_history(run, [tuple(o) for o in c["ops"]], tuple(c["shortcut"]) if c.get("shortcut") else None)
+    if c.get("mode"):
+        check_broken_solver(run, None, mode=c["mode"], fbp=c["ops"][0][1])
+    else:
+        check_history(run, [tuple(o) for o in c["ops"]], tuple(c["shortcut"]) if c.get("shortcut") else None)
     if run.violations:
         print("VIOLATION property=%s replay=(replayed)" % PID)
         print(run.violations[0]["detail"])
